@@ -185,6 +185,12 @@ let two_types dl inst =
       | RPtr a when a = inst && d.dl_rr.r_type = ty_ptr -> Some d.dl_rr.r_name | _ -> None) dl in
   List.length (List.sort_uniq compare ts) > 1
 
+(* SRV records of the instance naming two different hosts (ASCII case ignored) *)
+let srv_targets dl inst =
+  let hs = List.filter_map (fun d -> match d.dl_rr.r_data with
+      | RSrv (_, _, _, h) when d.dl_rr.r_name = inst && int_of_n d.dl_rr.r_type = 33 -> Some (lower_b h) | _ -> None) dl in
+  List.length (List.sort_uniq compare hs) > 1
+
 let refine ifs iters (f : fail) (tag : string) : string =
   let dl = all_dlvs ifs iters in
   match f with
@@ -192,7 +198,9 @@ let refine ifs iters (f : fail) (tag : string) : string =
     let targets = List.concat_map (fun it -> List.concat_map (fun d -> ptr_targets_of d.d_data) it.i_dgrams) iters in
     let low = List.map lower_b in
     if List.exists (fun t -> low t <> ls && low (name_labels (dotted t)) = ls) targets then "labels:presentation" else tag
-  | F05_alive (_, _, ty, inst) -> if ptr_variants dl ty inst then "alive:ptr-variant" else tag
+  | F05_alive (_, _, ty, inst) ->
+    if ptr_variants dl ty inst then "alive:ptr-variant" else if srv_targets dl inst then "alive:srv-targets" else tag
+  | F04_complete (_, _, _, inst, fresh) -> if fresh && srv_targets dl inst then "complete:srv-targets" else tag
   | _ -> tag
 
 let verdict ifs iters (fs : fail list) : string =
